@@ -60,7 +60,7 @@ Record inv (X W D T : list nat) (G : GH) (s : st) : Prop := {
   i_inner_own : forall b, alive s b = true -> tagof s b = TO KBuf -> ginner s b = true -> ~ In b W ->
               exists p, alive s p = true /\ oinner s p = Some b;
   i_ginner : forall b, ginner s b = true -> tagof s b = TO KBuf /\ G b SMem = [];
-  i_pres  : forall p m, alive s p = true -> tagof s p = TO KPool -> In m (G p SMem) -> In m (pres s p);
+  i_pres  : forall p m, alive s p = true -> tagof s p = TO KPool -> ~ In p W -> In m (G p SMem) -> In m (pres s p);
   i_dev   : forall o k, alive s o = true -> tagof s o = TO k -> k <> KDev -> k <> KMem ->
               exists d, odev s o = Some d /\ alive s d = true /\ tagof s d = TO KDev;
   i_buf   : forall m, alive s m = true -> tagof s m = TO KMem -> ~ In m X -> obuf s m <> None;
@@ -86,7 +86,9 @@ Record inv (X W D T : list nat) (G : GH) (s : st) : Prop := {
   i_log   : forall o, In o (dlog s) <-> (is_obj_tag (tagof s o) /\ (alive s o = false \/ In o D));
   i_D     : forall o, In o D -> alive s o = true /\ is_obj_tag (tagof s o);
   i_cur_str : forall d st, alive s d = true -> tagof s d = TO KDev -> ~ In d W ->
-              hptr s (ocur s d) = Some st -> odev s st = Some d
+              hptr s (ocur s d) = Some st -> odev s st = Some d;
+  i_pool_buf : forall p, alive s p = true -> tagof s p = TO KPool -> ~ In p W ->
+              (pres s p <> [] \/ pslots s p <> 0) -> oinner s p <> None
 }.
 
 End WithVkind.
